@@ -176,10 +176,188 @@ def s1_start(src, group, max_faults):
     src.check(res.get("position") == want_position, f"position() is {res.get('position')}, expected {want_position}", **info)
 
 
+# ------------------------------------------------------------------------------------------
+# S2: two partitions of one group member whose committed-offset lookups do not start together (the second
+# partition has no leader for a while) and a coordinator that answers OffsetFetch slowly
+
+
+def s2_two_partitions(src):
+    policy = POLICIES[src.choice("policy", 2)]
+    c0 = [None, 3, 5][src.choice("committed_p0", 3)]
+    c1 = [None, 4][src.choice("committed_p1", 2)]
+    leader_at = [None, 0.002, 0.006, 0.012, 0.03][src.choice("p1_gets_a_leader_at", 5)]
+    slow = [0.0, 0.008, 0.04][src.choice("offset_fetch_delay", 3)]
+    cluster = simkafka.Cluster(nodes=(0, 1), topics={"t": 2})
+    for p in (0, 1):
+        log = cluster.logs[("t", p)]
+        for o in range(0, 8):
+            rec = dict(offset=o, timestamp=1000 + o, key=b"k%d" % o, value=b"p%d" % p, headers=[])
+            log.prefill(R.encode_v2(o, [rec]), o, o, [(o, rec["key"], rec["value"], (), 1000 + o)])
+    g = cluster.group("g")
+    if c0 is not None:
+        g.offsets[("t", 0)] = (c0, "")
+    if c1 is not None:
+        g.offsets[("t", 1)] = (c1, "")
+    cluster.offset_fetch_delay = slow
+    real = cluster.leader[("t", 1)]
+    if leader_at is not None:
+        cluster.leader[("t", 1)] = -1
+    res = {"first": {}}
+
+    async def main(loop):
+        with simkafka.installed(cluster):
+            c = AIOKafkaConsumer(bootstrap_servers="h0:9092", group_id="g", enable_auto_commit=False, auto_offset_reset=policy,
+                                 fetch_max_wait_ms=50, request_timeout_ms=1000, retry_backoff_ms=20, metadata_max_age_ms=300000,
+                                 session_timeout_ms=3000, heartbeat_interval_ms=500, max_poll_records=1)
+            c.subscribe(["t"])
+            await c.start()
+            if leader_at is not None:
+                def elect():
+                    cluster.leader[("t", 1)] = real
+                loop.call_later(leader_at, elect)
+            t_end = loop.time() + 3.0
+            try:
+                while loop.time() < t_end and len(res["first"]) < 2:
+                    batch = await c.getmany(timeout_ms=100)
+                    for tp, recs in batch.items():
+                        if recs and tp.partition not in res["first"]:
+                            res["first"][tp.partition] = recs[0].offset
+            except E.KafkaError as e:
+                res["exc"] = repr(e)
+            res["pos"] = {}
+            for p in (0, 1):
+                try:
+                    res["pos"][p] = await asyncio.wait_for(c.position(TopicPartition("t", p)), timeout=2.0)
+                except (asyncio.TimeoutError, E.KafkaError, E.IllegalStateError) as e:
+                    res["pos"][p] = "no position: " + type(e).__name__
+            res["requests"] = [(a["req"]["api"], round(a["time"], 4)) for a in cluster.arrivals if a["req"]["api"] in ("OffsetFetch", "ListOffsets")]
+            try:
+                await asyncio.wait_for(c.stop(), timeout=30)
+            except (asyncio.TimeoutError, asyncio.CancelledError, Exception):  # noqa: BLE001
+                pass
+
+    try:
+        vloop.run(main, max_vtime=300)
+    except vloop.Deadlock as e:
+        res["deadlock"] = str(e)
+    info = dict(policy=policy, committed=[c0, c1], p1_leader_at=leader_at, offset_fetch_delay=slow, observed=str(res)[:600])
+    src.note(info)
+    src.check("deadlock" not in res, "consumer did not settle: " + str(res.get("deadlock")), **info)
+    src.check("exc" not in res, "unexpected error raised to the caller: " + str(res.get("exc")), **info)
+    for p, cm in ((0, c0), (1, c1)):
+        want = cm if cm is not None else (0 if policy == "earliest" else 8)
+        if src.twin and p == 1:
+            want += 1
+        got = res["first"].get(p)
+        if want < 8:
+            src.check(got == want, f"partition {p}: first record delivered is {got}, expected {want} "
+                      f"({'committed offset' if cm is not None else 'reset per policy'})", **info)
+        else:
+            src.check(got is None and res.get("pos", {}).get(p) == 8 + (1 if src.twin and p == 1 else 0) - (1 if src.twin and p == 1 else 0),
+                      f"partition {p}: expected to start at the log end (8), observed first={got} position={res.get('pos', {}).get(p)}", **info)
+
+
+# ------------------------------------------------------------------------------------------
+# S3: the start position is decided anew at every (re)assignment: what an earlier generation found out
+# (no committed offset under policy "none", an out-of-range position) must not leak into the next one
+
+
+def s3_reassigned_after_commit(src):
+    policy = ["none", "latest"][src.choice("policy", 2)]
+    polled_in_gen1 = src.flag("application_polls_in_generation_1")
+    commit_to = [3, 5][src.choice("transactional_job_commits", 2)]
+    gap = [0.05, 0.4][src.choice("gap_before_second_member", 2)]
+    cluster = simkafka.Cluster(nodes=(0, 1), topics={"t": 1})
+    log = cluster.logs[("t", 0)]
+    for o in range(0, 8):
+        rec = dict(offset=o, timestamp=1000 + o, key=b"k%d" % o, value=b"v", headers=[])
+        log.prefill(R.encode_v2(o, [rec]), o, o, [(o, rec["key"], b"v", (), 1000 + o)])
+    res = {}
+
+    def mk(cid):
+        return AIOKafkaConsumer(bootstrap_servers="h0:9092", group_id="g", client_id=cid, enable_auto_commit=False,
+                                auto_offset_reset=policy, fetch_max_wait_ms=50, request_timeout_ms=1000, retry_backoff_ms=20,
+                                session_timeout_ms=3000, heartbeat_interval_ms=100, rebalance_timeout_ms=1000)
+
+    async def main(loop):
+        from aiokafka.structs import OffsetAndMetadata
+        with simkafka.installed(cluster):
+            a, b = mk("A"), mk("B")
+            a.subscribe(["t"])
+            await a.start()
+            if polled_in_gen1:
+                try:
+                    r = await asyncio.wait_for(a.getone(), timeout=0.3)
+                    res["gen1"] = r.offset
+                except asyncio.TimeoutError:
+                    res["gen1"] = None
+                except E.KafkaError as e:
+                    res["gen1"] = type(e).__name__
+            await asyncio.sleep(gap)
+            # a consume-transform-produce job commits an offset for the group through a transaction
+            from . import txnsim
+            prod = await txnsim.open_producer(cluster)
+            try:
+                await prod.begin_transaction()
+                await prod.send_offsets_to_transaction({TP: OffsetAndMetadata(commit_to, "")}, "g")
+                await prod.commit_transaction()
+                res["b_commit"] = "ok"
+            except E.KafkaError as e:
+                res["b_commit"] = repr(e)
+            await prod.stop()
+            # a second member joins (and owns nothing: A sorts first): A is re-assigned the partition in generation 2
+            b.subscribe(["t"])
+            await b.start()
+            await asyncio.sleep(0.3)
+            res["owner_A"] = TP in a.assignment()
+            try:
+                r = await asyncio.wait_for(a.getone(), timeout=3.0)
+                res["first"] = r.offset
+            except asyncio.TimeoutError:
+                res["first"] = None
+            except E.KafkaError as e:
+                res["exc"] = type(e).__name__
+            for c in (b, a):
+                try:
+                    await asyncio.wait_for(c.stop(), timeout=30)
+                except (asyncio.TimeoutError, asyncio.CancelledError, Exception):  # noqa: BLE001
+                    pass
+
+    try:
+        vloop.run(main, max_vtime=300)
+    except vloop.Deadlock as e:
+        res["deadlock"] = str(e)
+    info = dict(policy=policy, polled_in_generation_1=polled_in_gen1, commit_to=commit_to, gap=gap, observed=str(res))
+    src.note(info)
+    src.check("deadlock" not in res, "consumers did not settle: " + str(res.get("deadlock")), **info)
+    if res.get("b_commit") != "ok" or not res.get("owner_A"):
+        return  # the history this harness is about did not come about (commit refused / partition elsewhere)
+    src.check("exc" not in res, f"{res.get('exc')} raised although the group has a committed offset for the re-assigned partition", **info)
+    want = commit_to + (1 if src.twin else 0)
+    if "exc" not in res:
+        src.check(res.get("first") == want, f"first record after the re-assignment is {res.get('first')}, expected the committed offset {want}", **info)
+
+
 def harnesses(tier):
     q = tier == "quick"
     confs = [(True, 0), (False, 0), (True, 1)] if q else [(True, 1), (False, 1), (True, 2)]
-    hs = []
+    hs = [Harness(
+        name="S2_two_partitions_staggered_lookups", fn=s2_two_partitions,
+        functions=[GroupCoordinator._maybe_refresh_commit_offsets, GroupCoordinator._do_fetch_commit_offsets,
+                   Fetcher._update_fetch_positions],
+        shape="S",
+        symbolic_vars="choices: policy (earliest/latest), committed offsets of the two partitions (absent or inside), when the second partition gets a leader, OffsetFetch latency",
+        bounds={"partitions": 2, "log": "offsets 0..7 each"},
+        stubs=["SimConn broker + group coordinator model", "virtual-time loop", "log built by the reference codec"],
+        max_seconds=300, max_paths=100000, twin_max_paths=300),
+        Harness(
+        name="S3_reassigned_after_commit", fn=s3_reassigned_after_commit,
+        functions=[Fetcher._fetch_requests_routine, Fetcher._update_fetch_positions, GroupCoordinator._maybe_refresh_commit_offsets],
+        shape="S",
+        symbolic_vars="choices: policy (none/latest), whether the application polls in the first generation, the offset a transactional job commits for the group, gap before it does",
+        bounds={"generations": 3, "members": 2, "log": "offsets 0..7"},
+        stubs=["SimConn broker + group coordinator model", "virtual-time loop", "log built by the reference codec"],
+        max_seconds=300, max_paths=100000, twin_max_paths=300)]
     for group, mf in confs:
         hs.append(Harness(
             name=f"S1_start_{'group' if group else 'groupless'}_{mf}faults", fn=s1_start, params={"group": group, "max_faults": mf},
